@@ -6,7 +6,7 @@ set -u
 SEED="$1"; shift
 cd /verif || exit 2
 if ! git -C /repo diff --quiet; then echo "/repo working tree is not clean"; exit 2; fi
-git -C /repo apply "$SEED/patch.diff" || { echo "patch does not apply"; exit 2; }
+git -C /repo apply "$(realpath "$SEED")/patch.diff" || { echo "patch does not apply"; exit 2; }
 trap 'git -C /repo checkout -- . ; git -C /repo clean -fdq core/tests/seeded_demo.rs 2>/dev/null' EXIT
 for id in "$@"; do
   echo "=== $id on $(basename "$SEED") ==="
